@@ -58,4 +58,73 @@ def pdpValidB (rec : Nat → Nat) (gs : Nat) : Bool :=
   isTourB rec gs &&
   (List.range (gs / 2)).all (fun k => decide (posFrom0 rec gs (k + 1) < posFrom0 rec gs (k + 1 + gs / 2)))
 
+
+/-! ### a well-formed k-opt move (NeuOpt): in-place reversal of consecutive segments -/
+
+instance instDecidableLinked (rec : Nat → Nat) : ∀ l : List Nat, Decidable (Linked rec l)
+  | [] => isTrue trivial
+  | [_] => isTrue trivial
+  | x :: y :: t =>
+    match Nat.decEq (rec x) y, instDecidableLinked rec (y :: t) with
+    | isTrue h1, isTrue h2 => isTrue ⟨h1, h2⟩
+    | isFalse h1, _ => isFalse (fun h => h1 h.1)
+    | _, isFalse h2 => isFalse (fun h => h2 h.2)
+
+instance (rec : Nat → Nat) (l : List Nat) : Decidable (CycleOf rec l) := by
+  unfold CycleOf; infer_instance
+
+/-- the new order of the nodes after the first one: every segment reversed in place, the rest kept -/
+def newTail (segs : List (List Nat)) (R : List Nat) : List Nat :=
+  (segs.map List.reverse).flatten ++ R
+
+/-- the links a well-formed k-opt move installs, read along the segments: the node `u` in front of a
+segment points to the LAST node of that segment; the first node of the last segment points to
+whatever followed it (the head of `R ++ [t0]`). -/
+def pairs (t0 : Nat) : Nat → List (List Nat) → List Nat → List (Nat × Nat)
+  | u, [], R => [(u, (R ++ [t0]).headD t0)]
+  | u, S :: segs, R => (u, S.getLastD t0) :: pairs t0 (S.headD t0) segs R
+
+/-- **Well-formed k-opt move** `(sel, left, right)` on the tour `rec` (declarative): read from `t0`
+the old tour is `t0, S₁, …, S_k, R` with non-empty segments; the installed pairs `(left_j, right_j)`
+are exactly the links `t0 → last S₁`, `first S_j → last S_{j+1}`, `first S_k → first of (R ++ [t0])`
+(repetitions allowed — the padding of the action); the successors of the selected nodes contain the
+first node of every segment and of `R`, and no other node of a segment.  Its effect is to reverse
+every segment in place: the new tour is `t0, rev S₁, …, rev S_k, R`. -/
+def KoptMoveWF (n : Nat) (rec : Nat → Nat) (sel left right : List Nat) (t0 : Nat)
+    (segs : List (List Nat)) (R : List Nat) : Prop :=
+  (∀ S ∈ segs, S ≠ []) ∧
+  (t0 :: (segs.flatten ++ R)).Perm (List.range n) ∧
+  CycleOf rec (t0 :: (segs.flatten ++ R)) ∧
+  left.headD 0 = t0 ∧
+  (∀ p ∈ left.zip right, p ∈ pairs t0 t0 segs R) ∧
+  (∀ p ∈ pairs t0 t0 segs R, p ∈ left.zip right) ∧
+  (∀ S ∈ segs, S.headD t0 ∈ sel.map rec ∧ ∀ z ∈ S.tail, z ∉ sel.map rec) ∧
+  (∀ v ∈ R.take 1, v ∈ sel.map rec)
+
+instance (n : Nat) (rec : Nat → Nat) (sel left right : List Nat) (t0 : Nat)
+    (segs : List (List Nat)) (R : List Nat) : Decidable (KoptMoveWF n rec sel left right t0 segs R) := by
+  unfold KoptMoveWF; infer_instance
+
+/-- witness search (untrusted, used by the driver only): rebuild `t0`, the segments and the rest from
+the installed pairs by walking the old tour -/
+def walkTo (rec : Nat → Nat) (stop : Nat) : Nat → Nat → List Nat
+  | 0, _ => []
+  | k + 1, cur => if cur = stop then [cur] else cur :: walkTo rec stop k (rec cur)
+
+def walkUntil (rec : Nat → Nat) (stop : Nat) : Nat → Nat → List Nat
+  | 0, _ => []
+  | k + 1, cur => if cur = stop then [] else cur :: walkUntil rec stop k (rec cur)
+
+def findWitness (n : Nat) (rec : Nat → Nat) (left right : List Nat) : Nat × List (List Nat) × List Nat :=
+  let t0 := left.headD 0
+  let ps := (left.zip right).eraseDups
+  let ends := ps.dropLast.map (·.2)
+  let acc := ends.foldl (fun (acc : List (List Nat) × Nat) e => (acc.1 ++ [walkTo rec e n acc.2], rec e))
+    ([], rec t0)
+  (t0, acc.1, walkUntil rec t0 n acc.2)
+
+def koptMoveWFB (n : Nat) (rec : Nat → Nat) (sel left right : List Nat) : Bool :=
+  let w := findWitness n rec left right
+  decide (KoptMoveWF n rec sel left right w.1 w.2.1 w.2.2)
+
 end Rl4co.Spec.Improve
